@@ -15,7 +15,7 @@ LEMMA_FILES = []
 REQUIRED_THEOREMS = ['header_count', 'declared_counts', 'read_write', 'second_cycle', 'mask_preserved']
 RULE = ('1-D time-series files (1-6 records, 1-4 dependent variables incl. names with "/", values over 30 orders of '
         'magnitude, negative, zero, values that need rounding to 7 digits; missing codes -999 ... -99999999, 9999999, '
-        'non-integer codes; array fill value equal to or different from missing_value; 0-8 header attributes incl. '
+        'non-integer codes; the independent variable first, second or last among the input\'s variables; array fill value equal to or different from missing_value; 0-8 header attributes incl. '
         'all optional standard ones): the text written by the library is parsed by an independent line tokenizer and '
         'compared line by line with the Lean writer model; the file read back by the library (explicit format and '
         'auto-detection) is compared with the Lean reader model applied to those lines; oracle: names/order, units, '
@@ -50,7 +50,8 @@ def gen(rng, tier):
                              mask=[rng.random() < 0.25 for _ in range(nrec)]))
         attrs = rng.sample(HEADS + EXTRA, rng.randint(0, 8))
         out.append(dict(nrec=nrec, deps=deps, attrs=attrs, iunit=rng.choice(['s', 'seconds since midnight', None, 'Start_UTC']),
-                        wdate=rng.random() < 0.8, tdtype=rng.choice(['d', 'd', 'f', 'i'])))
+                        wdate=rng.random() < 0.8, tdtype=rng.choice(['d', 'd', 'f', 'i']),
+                        ipos=rng.choice([0, 0, 1, len(deps)])))      # where the independent variable sits among the input's variables
     return out
 
 
@@ -63,15 +64,21 @@ def build(case):
     if case['wdate']:
         f.WDATE = '2020, 01, 02'
     f.INDEPENDENT_VARIABLE = 'Start_UTC'
-    tv = f.createVariable('Start_UTC', case.get('tdtype', 'd'), ('POINTS',))
-    tv[:] = np.arange(n) * 60. + 3600
-    if case['iunit'] is not None:
-        tv.units = case['iunit']
-    for d in case['deps']:
+    def mkindep():
+        tv = f.createVariable('Start_UTC', case.get('tdtype', 'd'), ('POINTS',))
+        tv[:] = np.arange(n) * 60. + 3600
+        if case['iunit'] is not None:
+            tv.units = case['iunit']
+    ipos = min(case.get('ipos', 0), len(case['deps']))
+    for k, d in enumerate(case['deps']):
+        if k == ipos:
+            mkindep()
         v = f.createVariable(d['name'], 'd', ('POINTS',), fill_value=d['fill'])
         v[:] = np.ma.masked_array(np.array(d['vals'], dtype='d'), mask=np.array(d['mask']))
         v.units = d['unit']
         v.missing_value = d['code']
+    if ipos == len(case['deps']):
+        mkindep()
     for a in case['attrs']:
         setattr(f, a, ATTRVAL.get(a, 'text of %s' % a))
     return f
